@@ -1285,7 +1285,16 @@ class Worker(actor.RallyActor):
     def receiveMsg_CompleteCurrentTask(self, msg, sender):
         # finish now ASAP. Remaining samples will be sent with the next WakeupMessage. We will also need to skip to the next
         # JoinPoint. But if we are already at a JoinPoint at the moment, there is nothing to do.
-        if self.at_joinpoint():
+        if self.at_joinpoint() and self.start_driving:
+            # We have already been told to drive on (messages from the driver arrive in order) but our wakeup is still pending.
+            # Hence, this request refers to the tasks that we are about to start: remember it so they are skipped.
+            self.logger.info(
+                "Worker[%s] has received CompleteCurrentTask before starting the tasks after the join point at index [%d].",
+                str(self.worker_id),
+                self.current_task_index,
+            )
+            self.complete.set()
+        elif self.at_joinpoint():
             self.logger.info(
                 "Worker[%s] has received CompleteCurrentTask but is currently at join point at index [%d]. Ignoring.",
                 str(self.worker_id),
